@@ -80,6 +80,11 @@ def run_driver(crate_dir, crate_name, mode="wit", features=(), cfgs=(), cargo_ar
         with open(cached_diag) as f:
             diags = json.load(f)
         facts = None
+        for used in (cached_diag, cached):
+            try:
+                os.utime(used, None)   # least-recently-used pruning keys on mtime
+            except OSError:
+                pass
         if os.path.exists(cached):
             with open(cached) as f:
                 facts = json.load(f)
@@ -193,3 +198,44 @@ def parse_or_panic(diag):
     texts = [diag.get("message") or ""] + [c or "" for c in (diag.get("children") or [])]
     return any(re.search(r"panicked|^expected |^unexpected |macro expansion ignores|^unknown start of token|^mismatched closing|"
                          r"^unclosed delimiter|^this file contains an unclosed|^incorrect close delimiter", t) for t in texts)
+
+
+def prune_cache(cap_bytes=None):
+    """The fact / expansion caches are keyed by content, so every edited state of /repo leaves entries behind that
+    nothing will read again. Keep the most recently used ones up to a size cap (default 6 GB, VERIF_CACHE_CAP_MB)."""
+    from .common import CACHE
+    if cap_bytes is None:
+        cap_bytes = int(os.environ.get("VERIF_CACHE_CAP_MB", "6000")) * 1024 * 1024
+    entries = []
+    total = 0
+    for sub in ("facts", "expanded"):
+        d = os.path.join(CACHE, sub)
+        try:
+            with os.scandir(d) as it:
+                for e in it:
+                    try:
+                        st = e.stat(follow_symlinks=False)
+                    except OSError:
+                        continue
+                    if e.is_dir(follow_symlinks=False):
+                        # leftover driver output directories of interrupted runs
+                        if e.name.startswith("out-") and time.time() - st.st_mtime > 3600:
+                            shutil.rmtree(e.path, ignore_errors=True)
+                        continue
+                    entries.append((st.st_mtime, st.st_size, e.path))
+                    total += st.st_size
+        except FileNotFoundError:
+            pass
+    if total <= cap_bytes:
+        return 0
+    entries.sort()
+    freed = 0
+    for mtime, size, path in entries:
+        if total - freed <= cap_bytes * 0.7:
+            break
+        try:
+            os.unlink(path)
+            freed += size
+        except OSError:
+            pass
+    return freed
